@@ -149,6 +149,16 @@ theorem listBlocks_equiv : ProgEquiv List.Perm listBlocks listBlocks := by
 
 theorem gcIsLocked_equiv : ProgEquiv Eq gcIsLocked gcIsLocked := isFile_equiv _
 
+/-- The second look `backup` takes at the lock does not depend on the order of the root listing
+(`any` over the entries). -/
+theorem gcLockListed_equiv : ProgEquiv Eq gcLockListed gcLockListed := by
+  unfold gcLockListed
+  apply ProgEquiv.bind (ProgEquiv.perform _)
+  rintro r r' ⟨he, -⟩
+  cases he with
+  | listing hp => exact .ret hp.any_eq
+  | refl => split <;> pe_leaf
+
 local macro "gc_tail" : tactic =>
   `(tactic| (apply ProgEquiv.bindEq (unwrapOr_equiv (isFile_equiv _) _); intro c; split
              · pe_leaf
